@@ -15,7 +15,10 @@ pub struct AffinePoint {
 
 impl Hash for AffinePoint {
     fn hash<H: core::hash::Hasher>(&self, state: &mut H) {
-        self.inner.hash(state);
+        // Hash the canonical encoding: the two curve points of a coset are
+        // equal as `AffinePoint`s and must hash equally.
+        let element: Element = self.into();
+        element.vartime_compress().0.hash(state);
     }
 }
 
